@@ -234,7 +234,21 @@ fn sgr_colour_form(r: &mut Rng) -> String {
 
 fn c03_token(r: &mut Rng) -> String {
     let intro = if r.chance(1, 3) { "\u{9b}" } else { "\x1b[" };
-    match r.below(12) {
+    match r.below(13) {
+        12 => {
+            // 30-36 parameters (some empty, some with sub-parts) and a final that reads them all:
+            // two of these in one stream expose stale values in the last slots
+            let n = 30 + r.below(7);
+            let ps: Vec<String> = (0..n)
+                .map(|_| match r.below(5) {
+                    0 => String::new(),
+                    1 => format!("{}:{}", r.below(50), r.below(50)),
+                    _ => format!("{}", r.pick(&[0u32, 1, 4, 5, 7, 20, 25, 39, 47, 1047, 1049, 6])),
+                })
+                .collect();
+            let q = if r.chance(1, 3) { "?" } else { "" };
+            format!("{}{}{}{}", intro, q, ps.join(";"), r.pick(&['m', 'm', 'h', 'l', 'H', 'r', 't']))
+        }
         0..=3 => {
             // every final x prefix x parameter shape
             let f = char::from_u32(0x40 + r.below(0x3f) as u32).unwrap();
